@@ -668,6 +668,26 @@ def _repacks_canonically(rec, case, entry, got):
         rec.violation(f"C14.encode/CdsShortTimestamp.{entry}-then-pack/octets-or-pfield", case, seen, (want, bytes([R.P_FIELD])))
 
 
+def check_from_unix_days(rec: Rec):
+    """CdsShortTimestamp.from_unix_days(unix days, ms): the same stamp as the constructor gives for (unix days + 4383, ms) - fields,
+    octets and both views"""
+    C = _C()
+    for d in (0, 1, 4382, 4383, 4384, 20000, 65535):
+        for ms in (0, 1, 999, 1000, 43200123, 86399999):
+            case = {"kind": "from_unix_days", "d": d, "ms": ms}
+            rec.case(True, ops=2)
+            try:
+                a, b = C.from_unix_days(d - 4383, ms), C(d, ms)
+                got = (a.ccsds_days, a.ms_of_day, bytes(a.pack()), a.as_unix_seconds(), a.as_datetime())
+                exp = (d, ms, bytes(b.pack()), b.as_unix_seconds(), b.as_datetime())
+            except Exception as e:
+                rec.violation(f"C14.encode/CdsShortTimestamp.from_unix_days/exception/{type(e).__name__}", case, repr(e), None)
+                continue
+            if got != exp:
+                rec.violation("C14.encode/CdsShortTimestamp.from_unix_days/differs-from-the-constructed-stamp", case, [str(x) for x in got], [str(x) for x in exp])
+    rec.outcome("from_unix_days-ok")
+
+
 def check_ms_of_today(rec: Rec):
     """CdsShortTimestamp.ms_of_today(unix seconds) = millisecond of that day, for instants before and after 1970; arguments that
     are exact in binary floating point (whole seconds and quarters), so that the expected value is not a matter of rounding"""
@@ -845,7 +865,10 @@ def run_shard(item):
         rec.count("addition_cases", n)
     elif kind == "refuse":
         check_ms_of_today(rec)
-        bodies = [bytes(6), bytes.fromhex("010203040506"), bytes.fromhex("ffff05265bff")]
+        check_from_unix_days(rec)
+        # 7-octet inputs and longer ones (a wrong P-field stays wrong whatever follows; 9 octets with a zero second octet look like
+        # a 24-bit day segment with a leading zero)
+        bodies = [bytes(6), bytes.fromhex("010203040506"), bytes.fromhex("ffff05265bff"), bytes(8), bytes.fromhex("0001020304050607")]
         n = 0
         for entry in ENTRIES:
             for p in range(256):
@@ -906,6 +929,8 @@ def replay(case):
         check_refuse(rec, case["entry"], case["raw"])
     elif k == "ms_of_today":
         check_ms_of_today(rec)
+    elif k == "from_unix_days":
+        check_from_unix_days(rec)
     elif k == "hist":
         run_history(rec, case["start"], case["d"], case["ms"], case["steps"], case["mode"])
     return rec.result()
